@@ -53,6 +53,9 @@ T = {
  "C17": ("property-based testing with exhaustive fault enumeration per generated stream (fopencookie fault-injecting streams, recording allocator, refint format models)",
          "Generated values and parameters for mpz_export/import (size 1..16, order, endian, nails, every misalignment, exact-size buffers under ASan) and the raw/text stream functions, decided by byte-exact models of the documented formats and round trips; for every generated stream ALL truncation points (as end of stream and as read error) and ALL positions at which an unbuffered writer fails are enumerated: input returns 0 / the available prefix, output returns 0 (gmp_fprintf -1), no leak or allocator contract breach, destination reusable. Fault enumeration is exhaustive per stream; streams and values are sampled.",
          "DESIGN.md section 5 C17", "fault_enumeration"),
+ "C18": ("property-based differential testing against libc printf/scanf (byte-stream PBT over the flag x width x precision x conversion cross product, validated layout model for big values, recording allocator)",
+         "Generated formats (every subset of the flags - + space # 0, widths incl. * positive/negative, precisions incl. .* negative and the empty '.', conversions d i o x X for Z/Q/N/M and e f g E G for F, alone or between standard conversions) are passed to all eight members of the gmp_printf family; output, return value, truncation behaviour of snprintf into exact-size buffers, asprintf block size and %n are compared byte for byte with libc on the equal long/double value, and with a layout model validated against libc in the same run where C has no counterpart (signed o/x/X, multi-limb values); gmp_sscanf/gmp_fscanf must read back what was printed with the C-style field count. Exploration with a differential oracle.",
+         "DESIGN.md section 5 C18"),
 }
 built = [i for i in ids if i in T and (os.path.exists(os.path.join(ROOT, "props", i + ".cc")) or os.path.exists(os.path.join(ROOT, "props", i + "_run.py")))]
 checks = []
